@@ -127,8 +127,8 @@ Proof.
     rewrite (commit_erase _ _ _ _ _ _ _ _ _ E). destruct o as [r|]; cbn [option_map erase_outcome strip_payload]; [|reflexivity].
     reflexivity.
   - unfold with_accounts. cbn [erase s_accounts s_ahist f0 f_acc_hist erase_outcome strip_payload s_vols s_txs s_moves s_thist s_logs s_next_tx s_next_log s_next_seq].
-    rewrite (upsert_account_fst (f_acc_hist f) now (s_accounts s) (s_ahist s) [] a md None None None).
-    rewrite (upsert_account_snd_off now (s_accounts s) [] a md None None None). reflexivity.
+    rewrite (upsert_account_fst (f_acc_hist f) now (s_accounts s) (s_ahist s) [] a md (Some now) None None).
+    rewrite (upsert_account_snd_off now (s_accounts s) [] a md (Some now) None None). reflexivity.
   - cbn [erase s_txs]. rewrite find_tx_strip. destruct (find_tx (s_txs s) id) as [t|]; cbn [option_map erase_outcome]; [|reflexivity].
     cbn [strip_tx t_meta]. destruct (mcontains (t_meta t) md); cbn [erase_outcome strip_payload]; [reflexivity|].
     assert (Hc : commutes (fun x => tx_with x (mmerge (t_meta x) md) now (t_rev x))) by (apply (tx_with_commutes (fun x => mmerge (t_meta x) md) now t_rev); reflexivity).
